@@ -51,6 +51,7 @@ INVARIANT ForcedIgnoresPersistentCache
 INVARIANT OverrideBeatsPersistentCache
 INVARIANT PersistentCacheOnlyReusesPositive
 INVARIANT FreshReadingIgnoresCache
+INVARIANT StaticIrrelevant
 CHECK_DEADLOCK FALSE
 POSTCONDITION EmitSpace
 '''
@@ -112,6 +113,16 @@ def build_cases(space: T.Dict[str, T.Any], tier: str, seed: int) -> T.List[dl.Ce
     for cfg in rnd.choices(configs, weights=[PRE_WEIGHT[c['pre']] for c in configs], k=n_meth):
         a = rnd.choice(valid)
         add('meth', cfg, [a, a], 'pkgconfig')
+    # the static keyword x global default_library x the subproject's own default_library: lookups that configure
+    # the providing subproject themselves (DepLookup!StaticClass), weighted towards the override-only routes
+    n_stat = 420 if quick else 4000
+    rnd_s = random.Random(f'c10-static-{seed}')     # own stream: the other classes keep their cases
+    fresh = [c for c in configs if c['pre'] == 'none']
+    for cfg in rnd_s.choices(fresh, weights=[3 if c['style'] == 'ovr' else 1 for c in fresh], k=n_stat):
+        cfg = dict(cfg, dl=rnd_s.choice(['shared', 'static', 'both']),
+                   sdl='none' if cfg['prov'] == 'none' else rnd_s.choice(['none', 'none', 'shared', 'static', 'both']))
+        a = dict(rnd_s.choice(valid), static=rnd_s.choice(['true', 'false', 'true', 'false', 'unset']))
+        add('stat', cfg, [a, a] if rnd_s.random() < 0.8 else [a, a, a])
     # sequences of three lookups with different arguments on the same name
     weights = [PRE_WEIGHT[c['pre']] for c in configs]
     for cfg in rnd.choices(configs, weights=weights, k=n_seq):
@@ -140,6 +151,11 @@ def signature(v: T.Dict[str, T.Any], c: T.Dict[str, T.Any], upto: int) -> str:
     if c.get('meth') == 'pkgconfig' and v.get('ovr', 'none') != 'none':
         # one defect, many cells: an explicit override is not seen by dependency(..., method: ...)
         return f"OverrideIgnoredWithMethodKwarg@override={v['ovr']}"
+    if v['clause'] == 'StaticKeywordIrrelevant':
+        # one defect, many cells: keyed by the route and the three library-kind inputs
+        cfg, a = c['cfg'], c['as'][min(upto, len(c['as'])) - 1]
+        return (f"StaticKeywordIrrelevant@{cfg['prov']}-{cfg['style']},fallback={a['fb']},static={a.get('static', 'unset')},"
+                f"default_library={cfg.get('dl')},sub:{cfg.get('sdl')}")
     if v.get('run') == 2:
         v2 = dl.second_view(c)
         return f"{v['clause']}@{dl.cell_key(c['cfg'], c['as'])}=>reconfigure:{dl.cell_key(v2['cfg'], v2['as'][:upto])}"
@@ -193,11 +209,11 @@ def part1(chk: Check) -> None:
     jobs = []
     by_wm: T.Dict[str, T.List[dl.Cell]] = {}
     for c in single:
-        by_wm.setdefault(c['cfg']['wm'], []).append(c)
-    for wm, cs in sorted(by_wm.items()):
+        by_wm.setdefault((c['cfg']['wm'], c['cfg'].get('dl', '')), []).append(c)
+    for (wm, dlib), cs in sorted(by_wm.items()):
         rnd.shuffle(cs)
         for n, part in enumerate(common.chunks(cs, per_project)):
-            jobs.append((f'{wm}{n}', wm, list(part), chk.seed))
+            jobs.append((f'{wm}{dlib}{n}', wm, list(part), chk.seed))
     jobs2 = []
     by_wm2: T.Dict[T.Tuple[str, str], T.List[dl.Cell]] = {}
     for c in hist:
@@ -282,7 +298,11 @@ def main(chk: Check) -> None:
         'documented reading (system only) and the reading pinned for the default mode (existing subproject first) are accepted',
         'wrap_mode nodownload/nopromote behave like default in part 1 (subproject sources are local)',
         '"system consulted" is observed at the pkg-config process boundary and only compared one way (asked => allowed)',
-        'feature-typed required:, multiple names per dependency(), native:, static:, modules: are not generated',
+        'feature-typed required:, multiple names per dependency(), native:, modules: are not generated',
+        'static: (true/false/unset) x -Ddefault_library x default_library in the subproject\'s default_options are generated only '
+        'for names nothing was configured or overridden for before the first lookup, with the same keyword on every lookup of '
+        'the history (DepLookup!StaticClass): an override or a subproject of another library kind is documented to be '
+        'invisible to a static: lookup; -D<subproject>:default_library and override_dependency(static:) are not generated',
         're-configuration histories: one `meson setup --reconfigure` after the first configuration, with changed wrap_mode / '
         'force_fallback_for / system and an edited build file; a positive result of the previous run may be reused or looked up '
         'again (both readings accepted) unless fallback is forced or the name is overridden; --wipe/--clearcache not generated',
